@@ -1,25 +1,30 @@
 """C10 — time-range, row and column selections commute with chunking and storage.
 
 Model: lean/StraxModel/Model/Selection.lean (loader pruning + apply_time_range, apply_selection,
-to_absolute_time_range, get_iter epilogue, save plan of partial requests, same-kind multi-target via
-Model/Align.lean); theorems: Props/C10.lean; lemmas: Lemmas/Selection.lean.
+to_absolute_time_range incl. run start from a run document or from the data, get_iter epilogue, `savePlan` = single-output
+slice of check_cache) and Model/SelectionMulti.lean (several same-kind targets through Model/Align.lean);
+theorems: Props/C10.lean, Props/C10Multi.lean; lemmas: Lemmas/Selection.lean, Lemmas/SelectionMulti.lean.
 
 Tie: REAL stored data.  A tiny source plugin and a dependent plugin of the same data kind are made once
 into temporary DataDirectories in three on-disk layouts of the same runs (the source's own chunking, many
 tiny chunks incl. a zero-length one, one giant chunk) plus mixed directories (source giant / dependent tiny
-and vice versa).  Then
+and vice versa) and a directory whose frontend provides a run document.  Runs: `a` (ns grid near 0), `s` (2^-9 s grid),
+`e` (ns grid at a unix-epoch run start 1.7e18 > 2^53), random runs.  Then
   * `strax.apply_selection` directly (exhaustive small scope: rows x ranges x modes; column sets),
   * `StorageFrontend.loader(key, time_range)` directly (every range with endpoints on / just inside / just
     outside every row and chunk boundary, every layout),
-  * `Context.to_absolute_time_range` (time_range | seconds_range | time_within and their combinations),
+  * `Context.to_absolute_time_range` (time_range | seconds_range | time_within and their combinations; run start from the
+    data and from the run document; epoch-scale starts),
   * `Context.get_array(...)` end to end (both processors; single target, dependent target, both same-kind
     targets together from differently chunked directories; selection string / list of strings / callable;
     keep_columns / drop_columns), the `get_iter` epilogue through a processor that yields nothing,
   * partial requests for targets that are not stored (compute counters + directory listing)
 are compared line by line with the compiled Lean driver.
 
-Oracle (independent of the model): numpy filter + projection of the full unrestricted result; error iff the
-range is disjoint from the run; directory listings unchanged by partial requests.
+Oracle (independent of the model): numpy filter + projection of the full unrestricted result; error iff a proper range
+is disjoint from the run; seconds_range endpoints = run start + trunc(1e9*s) computed with Fractions; directory listings
+unchanged by partial requests.  Two dedicated probes carry the open findings with an exact expectation
+(`degenerate-range/layout-independence`, `columns/drop-all`); any other outcome there is a new violation.
 """
 from __future__ import annotations
 
@@ -48,11 +53,14 @@ TRUSTED = [
     "generates strings / string lists / callables from a five-atom language and evaluates the same atoms in plain Python for the oracle)",
     "modelled not verified: numpy boolean masking / np.concatenate in get_array; tqdm progress bar; FileSytemBackend chunk files "
     "(the stored layout handed to the model is read back from the real directory with the real loader, without a time range)",
-    "Model/Align.lean (Plugin.iter, property C08) for several same-kind targets",
+    "Model/Align.lean (Plugin.iter, property C08) for several same-kind targets; Props/C10Multi.lean uses C08's theorems",
+    "`savePlan` (Model/Selection.lean) is a second, single-output model of check_cache next to C11's Model/Components.lean; it is tied "
+    "here only by the exhaustive `partial-requests/no-saving` component (the full statement is Strax.C11.partial_never_saves)",
 ]
 ASSUMPTIONS = [
-    "seconds_range values are rationals n/d whose float conversion int(1e9*(n/d)) equals the exact truncation of 1e9*n/d (dyadic values and most k/1e9), also at an epoch-scale run start (1.7e18 > 2^53); run start comes from the data "
-    "(no run-metadata document in the DataDirectory)",
+    "seconds_range values are rationals n/d whose float conversion int(1e9*(n/d)) equals the exact truncation of 1e9*n/d (dyadic values and most k/1e9), also at an epoch-scale run start (1.7e18 > 2^53); the run start is the run document's `start` floored to a second when "
+    "the frontend provides one (directory `rundoc`), else the first chunk start floored to a second",
+    "theorems assume rows of positive duration and plain (non-superrun) chunks (`LawAbiding`, checked on every stored layout by `hypothesis/law-abiding`)",
     "ordinary runs only (time ranges on superruns raise NotImplementedError in get_components; C14)",
     "rechunk_on_load=False (default); chunk_number requests not generated",
 ]
